@@ -178,6 +178,16 @@ pub fn check_tcp_law(c: &TcpLaw, st: &mut Stats) -> Result<(), Fail> {
     if tq(&sig, 0) != 1.0 {
         return Err(fail!("L1:quality-of-0-not-1.0", "{}", tq(&sig, 0)));
     }
+    // "is accepted": also by the lookup a user calls - a database holding just this signature must return it, at quality 1.0
+    {
+        use huginn_net_db::db_matching_trait::FingerprintDb;
+        let lbl = huginn_net_db::Label { ty: huginn_net_db::Type::Specified, class: None, name: "only".into(), flavor: None };
+        let coll = huginn_net_db::db::FingerprintCollection::<TcpObservation, dt::Signature, huginn_net_db::db::TcpIndexKey>::new(vec![(lbl, vec![sig.clone()])]);
+        match coll.find_best_match(&inst) {
+            Some((_, _, q)) if q == 1.0 => {}
+            other => return Err(fail!("L1:instance-not-accepted-by-a-database-holding-only-this-signature", "sig {} obs {} -> {:?}", sig, inst, other.map(|(l, s, q)| (l.name.clone(), format!("{s}"), q)))),
+        }
+    }
     // perturbations
     let (field, how) = c.pert;
     let mut p = inst.clone();
@@ -439,6 +449,19 @@ pub fn check_http_law(ctx: &Ctx, c: &HttpLaw, st: &mut Stats) -> Result<(), Fail
             Some(0) => {
                 if q != 1.0 {
                     return Err(fail!("http:L1:quality-of-0-not-1.0", "{q}"));
+                }
+                // "is accepted": also by the lookup of a database holding just this signature
+                use huginn_net_db::db_matching_trait::FingerprintDb;
+                let lbl = huginn_net_db::Label { ty: huginn_net_db::Type::Specified, class: None, name: "only".into(), flavor: None };
+                let found = if c.response {
+                    let o = HttpResponseObservation { version, horder: horder.clone(), habsent: habsent.clone(), expsw: expsw.clone() };
+                    huginn_net_db::db::FingerprintCollection::<HttpResponseObservation, huginn_net_db::http::Signature, huginn_net_db::db::HttpIndexKey>::new(vec![(lbl, vec![sig.clone()])]).find_best_match(&o).map(|(_, _, q)| q)
+                } else {
+                    let o = HttpRequestObservation { version, horder: horder.clone(), habsent: habsent.clone(), expsw: expsw.clone() };
+                    huginn_net_db::db::FingerprintCollection::<HttpRequestObservation, huginn_net_db::http::Signature, huginn_net_db::db::HttpIndexKey>::new(vec![(lbl, vec![sig.clone()])]).find_best_match(&o).map(|(_, _, q)| q)
+                };
+                if found != Some(1.0) {
+                    return Err(fail!("http:L1:instance-not-accepted-by-a-database-holding-only-this-signature", "sig {} obs horder {:?} expsw {:?} -> {:?}", sig, horder.iter().map(|h| format!("{h}")).collect::<Vec<_>>(), expsw, found));
                 }
             }
             Some(3) if expsw != sig.expsw && ctx.is_known(K_EXPSW) => {
